@@ -57,6 +57,8 @@ def generated_cases(rng, tier):
                     if G.wf(ti, im, ret):
                         for args in ([], [(0, 2)], [(1, 0), (4, 3)]):
                             cases.append("1 %d | %s" % (ti, " ".join(map(str, G.method_row(recv, im, ret, 3, args)))))
+                        # the same method with a doc comment and an unrelated attribute beside #[int_result] / #[no_int_result] (receiver field +8)
+                        cases.append("1 %d | %s" % (ti, " ".join(map(str, G.method_row(recv + 8, im, ret, 3, [(0, 2)])))))
     for kind in (0, 1, 2, 3, 4, 5):
         ops = [[16, 5], [16, -2], [16, 0], [18, 4], [18, -9], [19, 0], [19, 1], [19, 13], [19, -7], [19, 65535], [19, -2147483648], [19, 2147483647], [20, 3], [20, -1], [20, 0]]
         cases.append("101 0 %d | %s" % (kind, " ; ".join(" ".join(map(str, o)) for o in ops)))
